@@ -30,6 +30,7 @@ def run(ctx: Ctx) -> list[Ob]:
     obs += r5h_mod.r5h(ctx)
     obs += r14u_mod.merged_node_lists_unique(ctx)
     obs += r1.r1e(ctx)
+    obs += r12b.param_rewrites(ctx)
     return obs
 
 
@@ -56,6 +57,7 @@ SPEC = PropSpec(
         ' R5h: the two axis idioms put axis 0 on the right side -- in `d if d >= 0 else d + len(shape)` (normalisation) axis 0 stays, in `a if a < 0 else a + 1` (shift past the fold dimension) every non-negative axis, 0 included, moves by one; the branch taken at 0 is derived from the comparison operator of each such conditional expression.'
         ' R14u: the constructors that merge the node lists of several operand graphs (Parameter.from_nary / TorchParameter.from_nary) de-duplicate the concatenation in order: operands sharing a sub-graph (log(q) + q) or the same operand twice (q * q) would otherwise list the shared nodes twice and the composite graph could not be ordered, compiled or evaluated.'
         ' R1e: a torch parameter node is not pickier than the symbolic node it is compiled from -- the atomic comparisons its constructor asserts on hyper-parameters both constructors take under the same name are among those the symbolic constructor asserts (a torch-side `0 <= vmin` would make a symbolically valid scaled sigmoid onto [-1, 1] fail at compile time).'
+        ' R12b (parameter rewrites): every optimisation rewrite of a parameter sub-graph (log of softmax, ReduceSum of an outer product as einsum + flatten, ..) is interpreted on abstract operands and has to return the shape and the element layout of the graph it replaces -- composite graphs evaluate to the composition of their nodes under optimize=True as well.'
     ),
     not_decided="the mathematical content of each operator (numerical).",
     run=run,
